@@ -119,6 +119,8 @@ def gen_call(rng, maxlen=40, long_ok=0):
                                       rng.randrange(0, 2 ** 32) + 0.999999, rng.randrange(0, 2 ** 32) + 0.000001])
     if rng.random() < 0.1 and "%" not in text:
         call["args"] = True
+    if rng.random() < 0.1:
+        call["child"] = True
     return call
 
 
@@ -189,16 +191,18 @@ class Env:
         d = self.root / f"l{self.n}"
         d.mkdir()
         path = d / "T.json.zst"
-        lg = glog.get_logger(LOGGER)
-        lg.setLevel(1)
-        lg.propagate = False
+        parent = glog.get_logger(LOGGER)
+        parent.setLevel(1)
+        parent.propagate = False
         cap = _Capture(calls)
-        lg.addFilter(cap)
+        child = glog.get_logger(LOGGER + ".sub")
         logging.disable(logging.NOTSET)
         try:
             h = glog.add_zst_log_handler(LOGGER, path, glog.Loglevel.TRACE)
+            h.queue_handler.addFilter(cap)  # sees every record before QueueHandler.prepare
             try:
                 for c in calls:
+                    lg = child if c.get("child") else parent
                     extra = {"tags": c["tags"]} if c["tags"] is not None else None
                     msg, args = (c["text"], ()) if not c["args"] else ("%s|%d", (c["text"], 7))
                     f = getattr(lg, c["m"])
@@ -218,7 +222,6 @@ class Env:
                 glog.remove_zst_log_handler(LOGGER, h)
         finally:
             logging.disable(logging.CRITICAL)
-            lg.removeFilter(cap)
         expected = []
         for c, k in zip(calls, cap.out):
             text = c["text"] if not c["args"] else f"{c['text']}|7"
@@ -229,7 +232,7 @@ class Env:
                 "text": text, "priority": ORACLE_PRIO[lv],
                 "tags": ["result"] if c["m"] == "result" else c["tags"],
                 "timestamp": datetime.datetime.fromtimestamp(k["created"], datetime.timezone.utc).isoformat(),
-                "module": LOGGER, "host": self.host, "line": k["line"], "levelno": lv, "levelname": LEVEL_NAME[lv],
+                "module": LOGGER + (".sub" if c.get("child") else ""), "host": self.host, "line": k["line"], "levelno": lv, "levelname": LEVEL_NAME[lv],
                 "func": k["func"],
                 "_iso": datetime.datetime.fromtimestamp(k["created"], self.tz).isoformat(),
                 "_created": k["created"],
@@ -462,6 +465,7 @@ def evaluate(env, calls, plan):
         out.append({"layer": "writer", "mode": "file", "sig": "line-count", "probe": None,
                     "impl": {"lines": len(log.lines), "unterminated_tail": log.tail_garbage.hex()},
                     "oracle": {"lines": n}, "what": f"{len(calls)} records logged, {len(log.lines)} lines in the file"})
+    nopfx_lines = log.raw[0].split(b"\n")
     for i, e in enumerate(exp):
         mt, mf = res[1 + i].split()
         real = log.lines[i] + b"\n" if i < len(log.lines) else b""
@@ -471,13 +475,13 @@ def evaluate(env, calls, plan):
             out.append({"layer": "writer", "mode": "line", "sig": "line-bytes-differ", "probe": {"record": i},
                         "impl": real[max(0, j - 40): j + 40].decode("ascii", "replace"),
                         "oracle": model_b[max(0, j - 40): j + 40].decode("ascii", "replace"),
-                        "what": f"line {i} written by the handler differs from the oracle line at byte {j}"})
+                        "what": f"line {i} written by the handler differs from the oracle line at byte {j}", "tie_only": True})
             break
-        nopfx = log.raw[0].split(b"\n")[i] + b"\n"
+        nopfx = (nopfx_lines[i] + b"\n") if i < len(nopfx_lines) - 1 else b""
         if nopfx.hex() != mf:
             out.append({"layer": "writer", "mode": "line", "sig": "noprefix-line-differs", "probe": {"record": i},
                         "impl": nopfx[:80].decode("ascii", "replace"), "oracle": bytes.fromhex(mf)[:80].decode("ascii", "replace"),
-                        "what": f"line {i} without its prefix differs from the oracle line"})
+                        "what": f"line {i} without its prefix differs from the oracle line", "tie_only": True})
             break
     for pfx in (0, 1):
         if int(res[len_at[pfx]]) != n:
@@ -596,35 +600,47 @@ def _same(d, cls):
     return (d["layer"], d["mode"], d["sig"]) == cls
 
 
-def _probe_variants(d, L):
-    """the probe of disagreement `d`, re-targeted at a log of L simple records: candidate (plan, descr) in fixed order"""
+def _probe_variants(d, L, wide):
+    """the probe of disagreement `d`, re-targeted at a log of L simple records: candidate (plan, descr) in fixed order.
+    narrow pass: threshold 8, plain file; wide pass: also the original threshold / container"""
     layer, mode = d["layer"], d["mode"]
     pr = d["probe"] or {}
-    prios = [8] + ([pr_] if (pr_ := _num_prio(d)) != 8 else [])
+    p0 = _num_prio(d)
+    prios = [8] + ([p0] if wide and p0 != 8 else [])
     pfxs = [1, 0] if pr.get("pfx", 1) == 1 else [0, 1]
+
+    def clip(o):
+        if o[0] == "len":
+            return ("len",)
+        if o[0] == "offset":
+            return ("offset", max(-L, min(o[1], L - 1)) if L else 0, 8)
+        return (o[0], min(o[1], L + 1), 8)
+
     if layer == "api":
-        conts = ["plain"] + ([pr["container"]] if pr.get("container", "plain") != "plain" else [])
+        conts = ["plain"] + ([pr["container"]] if wide and pr.get("container", "plain") != "plain" else [])
         if mode == "open":
             for c in conts:
                 for pfx in pfxs:
                     yield [("api", pfx, c, [("forward", 0, 8)])], {"len": L, "container": c, "pfx": pfx}
             return
         ops = [tuple(o) for o in pr["ops"]]
-        hist_kinds = [[]] + ([ops[:-1]] if len(ops) > 1 else [])
         last = ops[-1]
-        for hist in hist_kinds:
-            for a in ([0] if last[0] in ("forward", "reverse", "len") else ([a for a in range(-L, L)] or [0]) if last[0] == "offset" else range(0, L + 3)):
+        hists = [[]]
+        if len(ops) > 1:
+            hists += [[clip(o)] for o in ops[:-1]] + ([[clip(o) for o in ops[:-1]]] if len(ops) > 2 else [])
+        args = [0] if last[0] in ("forward", "reverse", "len") else (list(range(-L, L)) or [0]) if last[0] == "offset" else list(range(0, L + 3))
+        for hist in hists:
+            for a in args:
                 for p in prios:
                     for c in conts:
                         for pfx in pfxs:
                             op = ("len",) if last[0] == "len" else (last[0], a, p)
-                            h2 = [o if o[0] == "len" else (o[0], min(o[1], L + 1) if o[0] != "offset" else 0, 8) for o in hist]
-                            yield [("api", pfx, c, h2 + [op])], {"len": L, "arg": a, "prio": p, "container": c, "pfx": pfx,
-                                                                 "after": [o[0] for o in h2]}
+                            yield [("api", pfx, c, hist + [op])], {"len": L, "arg": a, "prio": p, "container": c, "pfx": pfx,
+                                                                   "after": [_opname(o) for o in hist]}
     elif layer == "hr":
-        conts = [["plain"]] + ([pr["containers"]] if pr.get("containers", ["plain"]) != ["plain"] else [])
+        conts = [["plain"]] + ([pr["containers"]] if wide and pr.get("containers", ["plain"]) != ["plain"] else [])
         for a in ([0] if mode in ("forward", "reverse") else range(0, L + 3)):
-            for p in prios + ([None] if pr.get("prio") is None else []):
+            for p in prios + ([None] if wide and pr.get("prio") is None else []):
                 for c in conts:
                     for pfx in pfxs:
                         yield [("hr", pfx, c, mode, a, p)], {"len": L, "arg": a, "prio": p, "containers": c, "pfx": pfx}
@@ -632,6 +648,10 @@ def _probe_variants(d, L):
         for a in ([0] if mode in ("forward", "reverse") else range(0, L + 3)):
             for pfx in pfxs:
                 yield [("stdin", pfx, mode, a, 8)], {"len": L, "arg": a, "prio": 8, "pfx": pfx}
+
+
+def _opname(o):
+    return o[0] if o[0] in ("len", "forward", "reverse") else f"{o[0]}({o[1]})"
 
 
 def _num_prio(d):
@@ -649,18 +669,19 @@ def shrink(env, d, calls):
     """canonical smallest reproduction of disagreement class (layer, mode, sig): fixed order, simple records first"""
     cls = (d["layer"], d["mode"], d["sig"])
     if d["layer"] in ("api", "hr", "hr-stdin"):
-        budget = 400
-        for L in range(0, 6):
-            cs = simple_calls([SHRINK_LEVELS[i % 7] for i in range(L)])
-            for plan, descr in _probe_variants(d, L):
-                budget -= 1
-                if budget < 0:
-                    break
-                ds, _ = evaluate(env, cs, plan)
-                hit = next((x for x in ds if _same(x, cls)), None)
-                if hit is not None:
-                    key = f"{cls[0]}:{cls[1]}:{cls[2]}:" + ",".join(f"{k}={_kv(v)}" for k, v in descr.items())
-                    return key, hit, {"calls": cs, "plan": plan}
+        for wide in (False, True):
+            budget = 300
+            for L in range(0, 7):
+                cs = simple_calls([SHRINK_LEVELS[i % 7] for i in range(L)])
+                for plan, descr in _probe_variants(d, L, wide):
+                    budget -= 1
+                    if budget < 0:
+                        break
+                    ds, _ = evaluate(env, cs, plan)
+                    hit = next((x for x in ds if _same(x, cls)), None)
+                    if hit is not None:
+                        key = f"{cls[0]}:{cls[1]}:{cls[2]}:" + ",".join(f"{k}={_kv(v)}" for k, v in descr.items())
+                        return key, hit, {"calls": cs, "plan": plan}
     # content dependent: one record at a time, then one code point at a time
     probe_plan = _replan(d)
     for c in calls:
@@ -994,8 +1015,8 @@ def run(ctx):
         # 3. seeded: rich text, tags, exception traces, pinned timestamps, all levels
         n_cases = ctx.pick(110, 900)
         for i in range(n_cases):
-            n = rng.choice([0, 1, 1, 2, 3, 4, 5, 7, 10, rng.randint(0, ctx.pick(24, 80))])
-            calls = [gen_call(rng, 40, long_ok=ctx.pick(3000, 60000) if i % 10 == 0 else 0) for _ in range(n)]
+            n = rng.choice([0, 1, 1, 2, 3, 4, 5, 7, 10, rng.randint(0, ctx.pick(24, 60))])
+            calls = [gen_call(rng, 40, long_ok=ctx.pick(3000, 20000) if i % 10 == 0 else 0) for _ in range(n)]
             go(calls, sampled_plan(rng, n, conts, 8, 4, 6), "seeded-rich")
             if ctx.quick and not ctx.widened and time.time() - t0 > 55:
                 ctx.notes["seeded_cases_cut_short_at"] = i
